@@ -37,6 +37,7 @@ def src(t, selfsrc='Self'):
     if k == 'bool': return 'bool'
     if k == 'string': return 'String'
     if k == 'strref': return "&'%s str" % t[1]
+    if k == 'cowstr': return "Cow<'static, str>"
     if k == 'vec': return 'Vec<%s>' % src(t[1], selfsrc)
     if k == 'opt': return 'Option<%s>' % src(t[1], selfsrc)
     if k == 'arr': return '[%s; %s]' % (src(t[1], selfsrc), t[2])
@@ -105,6 +106,7 @@ def vals(t):
     if k == 'bool': return [('false', 'false'), ('true', 'true')]
     if k == 'string': return [('String::new()', '""'), ('String::from("é")', '"é"')]
     if k == 'strref': return [('"a"', '"a"'), ('""', '""')]
+    if k == 'cowstr': return [("Cow::<'static, str>::Borrowed(\"é\")", 'C{_:"é"}'), ("Cow::<'static, str>::Owned(String::new())", 'C{_:""}')]
     if k == 'vec':
         e = vals(t[1])
         ty = src(t[1])
@@ -145,12 +147,14 @@ class M:
     def __init__(self, ty, name=None, skip=False, compact=False, rename=None, docs=(), encoded_as=False):
         self.ty, self.name, self.skip, self.compact, self.rename, self.docs, self.encoded_as = ty, name, skip, compact, rename, list(docs), encoded_as
         self.foreign = []       # attributes of ANOTHER derive on this member (must be ignored by TypeInfo)
+        self.skip_last = False  # emit #[codec(skip)] after the other codec attributes of this member
 
 
 class V:
     def __init__(self, name, shape, members=(), index=None, disc=None, skip=False, docs=()):
         self.name, self.shape, self.members, self.index, self.disc, self.skip, self.docs = name, shape, list(members), index, disc, skip, list(docs)
         self.foreign = []
+        self.skip_last = False
 
 
 class D:
@@ -215,9 +219,10 @@ def member_src(d, m, in_variant=False):
     lines = []
     for f, _ in m.docs: lines.append(f)
     for a in m.foreign: lines.append(a)
-    if m.skip: lines.append('#[codec(skip)]')
+    if m.skip and not m.skip_last: lines.append('#[codec(skip)]')
     if m.compact: lines.append('#[codec(compact)]')
     if m.encoded_as: lines.append('#[codec(encoded_as = "<%s as scale::HasCompact>::Type")]' % src(m.ty))
+    if m.skip and m.skip_last: lines.append('#[codec(skip)]')
     if m.rename is not None: lines.append('#[scale_info(rename = %s)]' % rstr(m.rename))
     vis = '' if in_variant else 'pub '
     ty = src(m.ty, self_src(d))
@@ -273,8 +278,9 @@ def def_src(d):
         for v in d.variants:
             for f, _ in v.docs: out.append('    ' + f)
             for a in v.foreign: out.append('    ' + a)
-            if v.skip: out.append('    #[codec(skip)]')
+            if v.skip and not v.skip_last: out.append('    #[codec(skip)]')
             if v.index is not None: out.append('    #[codec(index = %d)]' % v.index)
+            if v.skip and v.skip_last: out.append('    #[codec(skip)]')
             disc = (' = %d' % v.disc) if v.disc is not None else ''
             if v.shape == 'unit':
                 out.append('    %s%s,' % (v.name, disc))
@@ -467,8 +473,8 @@ def all_members(d):
 # ------------------------------------------------------------------ enumeration: base shapes
 
 NG = [I('u8'), I('u32'), BOOL, STRING, VEC(I('u8')), OPT(I('u16')), ARR(I('u8'), 3), TUP(I('u8'), BOOL), TUP(I('u8'), TUP(BOOL, I('u8'))),
-      PH(I('u8')), ('strref', 'static'), BOX(I('u16')), I('i8'), I('u64'), I('u128'), SELFOPT, SELFVEC, TUP(I('u8'), PH(BOOL)), VEC(OPT(BOOL)), I('i32'), I('u16')]
-S8 = [I('u8'), I('u32'), BOOL, STRING, VEC(I('u8')), PH(I('u8')), SELFOPT, TUP(I('u8'), BOOL)]
+      PH(I('u8')), ('strref', 'static'), BOX(I('u16')), I('i8'), I('u64'), I('u128'), SELFOPT, SELFVEC, TUP(I('u8'), PH(BOOL)), VEC(OPT(BOOL)), I('i32'), I('u16'), ('cowstr',)]
+S8 = [I('u8'), I('u32'), BOOL, STRING, VEC(I('u8')), PH(I('u8')), SELFOPT, TUP(I('u8'), BOOL), ('cowstr',)]
 S5 = [I('u8'), STRING, PH(I('u8')), OPT(I('u16')), I('u32')]
 FNAMES = ['a', 'b', 'c']
 VNAMES = ['A', 'B', 'C', 'Dd']
@@ -586,6 +592,12 @@ def ov_skip_variant(d):
         if all(v.skip for v in c.variants): continue
         c.overlays.append('codec(skip) on variant %d' % j)
         yield c
+        c2 = c.clone()
+        c2.variants[j].index = 9
+        c2.variants[j].skip_last = True
+        if len({i for _, i in variant_indices(c2)}) == len(variant_indices(c2)) and all(i != 9 for _, i in variant_indices(c2)):
+            c2.overlays[-1] = 'codec(index = 9) ABOVE codec(skip) on variant %d (retired variant keeping its index)' % j
+            yield c2
 
 
 def ov_compact(d):
@@ -935,6 +947,18 @@ def gen_definitions(thorough):
     vs2.skip = True
     add(D('enum', variants=[V('A', 'unit'), vs2], generics=[T], skip_params=['T'], inst=u8, noinfo_inst=noinfo), 'codec(skip) variant holding T, T skipped')
     add(D('enum', variants=[V('A', 'tuple', [skipm(NAMED('NoInfoG', PARAM('T'))), M(PARAM('T'))])], generics=[T], inst=u8), 'codec(skip) member inside a variant')
+    # stacked codec attributes: #[codec(skip)] after another codec attribute of the same member / variant
+    vs3 = V('B', 'tuple', tuple_members([NAMED('NoInfoG', PARAM('T'))]), index=9)
+    vs3.skip = True
+    vs3.skip_last = True
+    add(D('enum', variants=[V('A', 'tuple', tuple_members([PARAM('T')])), vs3], generics=[T], inst=u8), 'codec(index = 9) then codec(skip) on a variant holding NoInfoG<T>')
+    vs4 = V('B', 'named', named_members([PARAM('T')]), index=200)
+    vs4.skip = True
+    vs4.skip_last = True
+    add(D('enum', variants=[V('A', 'unit'), vs4], generics=[T], skip_params=['T'], inst=u8, noinfo_inst=noinfo), 'codec(index) then codec(skip) on a variant holding T, T skipped')
+    # an associated type whose NAME equals the identifier of the derived type (the Substrate `Event<T>` / `T::Event` pattern)
+    add(D('struct', 'named', named_members([('assoc', 'T', False), I('u8')]), generics=[('T', 'Tr', None)], inst=u8, name='A'), 'type named like the associated type it uses: struct A<T: Tr> { a: T::A }')
+    add(D('enum', variants=[V('X', 'tuple', tuple_members([('assoc', 'T', False)])), V('Y', 'unit')], generics=[('T', 'Tr', None)], skip_params=['T'], inst=u8, noinfo_inst=noinfo_tr, name='A'), 'enum A<T: Tr> { X(T::A) } with skip_type_params(T)')
     # explicit bounds replace the generated ones
     add(D('struct', 'named', named_members([PARAM('T')]), generics=[T], bounds="T: TypeInfo + 'static", inst=u8), 'bounds(T: TypeInfo)')
     add(D('struct', 'named', named_members([PH(PARAM('T')), PARAM('U')]), generics=[T, U], bounds="U: TypeInfo + 'static", skip_params=['T'], inst=u8, noinfo_inst=noinfo), 'bounds(U: ..) + skip_type_params(T)')
